@@ -324,6 +324,27 @@ class C12(Oracle):
             if self.last_reco is not None and not same_point(self.last_reco, p):
                 self.ctx.fail("C12", "after-exhaustion", "recommendation changed after the schedule was exhausted")
             self.last_reco = list(p) if isinstance(p, list) else p
+            # what the recommendation was when the schedule ended is known from the ledger: a best evaluated search
+            # cell; pulls at the domain centre made since then must not have altered it
+            ctx = self.ctx
+            ps = ctx.top["part"]
+            best = None
+            pts = []
+            for s2 in ps.order:
+                if s2.parent is None:
+                    continue
+                led = _led(ctx, s2.node)
+                if led is None or not led.list:
+                    continue
+                v = led.list[0]
+                if best is None or v > best:
+                    best = v
+                    pts = [s2.node.get_cpoint()]
+                elif v == best:
+                    pts.append(s2.node.get_cpoint())
+            if pts and isinstance(p, list) and not any(same_point(p, q) for q in pts):
+                ctx.fail("C12", "after-exhaustion", "after the schedule was exhausted the recommendation is not a best evaluated search cell "
+                         "(rewards of the pulls at the domain centre altered it)")
 
     def on_constructed(self):
         if self.ctx.algo_name != "SequOOL":
